@@ -257,7 +257,79 @@ func gunzip(b []byte) ([]byte, error) {
 	return io.ReadAll(r)
 }
 
+// verifCodec: a codec registered through CodecOption ("#!" + protojson).
+type verifCodec struct{}
+
+func (verifCodec) Name() string { return "verif" }
+func (verifCodec) Marshal(v interface{}) ([]byte, error) {
+	b, err := protojson.Marshal(v.(proto.Message))
+	return append([]byte("#!"), b...), err
+}
+func (c verifCodec) MarshalAppend(b []byte, v interface{}) ([]byte, error) {
+	x, err := c.Marshal(v)
+	return append(b, x...), err
+}
+func (verifCodec) Unmarshal(b []byte, v interface{}) error {
+	if !bytes.HasPrefix(b, []byte("#!")) {
+		return fmt.Errorf("verif codec: missing marker")
+	}
+	return protojson.Unmarshal(b[2:], v.(proto.Message))
+}
+
+// c04Custom: codecs registered with CodecOption take part in negotiation like the built-in ones.
+func c04Custom(c *Ctx) {
+	var gotIn *dynamicpb.Message
+	h := func(ctx context.Context, in *dynamicpb.Message) (proto.Message, error) {
+		gotIn = in
+		r := dynamicpb.NewMessage(in.Descriptor().ParentFile().Messages().ByName("Reply"))
+		r.Set(r.Descriptor().Fields().ByName("text"), protoreflect.ValueOfString("custom-reply"))
+		return r, nil
+	}
+	fx, err := NewFixture([]*MethodSpec{{Name: "Cu", In: "Req", Out: "Reply", Unary: h, Rule: postRule("/c04/custom", "*")}}, nil,
+		larking.CodecOption("application/x-verif", verifCodec{}))
+	if err != nil || fx.RegErr != nil {
+		c.SpecFail("fixture", "c04 custom", fmt.Sprint(err), "", "C04/fixture", "fixture")
+		return
+	}
+	for _, tc := range []struct{ ct, accept, wantCT string }{
+		{"application/json", "application/x-verif", "application/x-verif"},
+		{"application/json", "text/html, application/x-verif;q=0.5", "application/x-verif"},
+		{"application/x-verif", "", "application/x-verif"},
+		{"application/x-verif", "application/json", "application/json"},
+		{"application/json", "application/*;q=0.1, application/x-verif", "application/x-verif"},
+	} {
+		body := []byte(`{"name":"n"}`)
+		if tc.ct == "application/x-verif" {
+			body = append([]byte("#!"), body...)
+		}
+		r := httptest.NewRequest("POST", "/c04/custom", bytes.NewReader(body))
+		r.Header.Set("Content-Type", tc.ct)
+		if tc.accept != "" {
+			r.Header.Set("Accept", tc.accept)
+		}
+		gotIn = nil
+		rec, pn := fx.Serve(r)
+		in := fmt.Sprintf("CodecOption(application/x-verif): Content-Type=%s Accept=%q", tc.ct, tc.accept)
+		c.Eval("api-custom-codec", in, true)
+		gotCT := rec.Header().Get("Content-Type")
+		ok := pn == nil && rec.Code == 200 && gotCT == tc.wantCT && gotIn != nil
+		if ok {
+			out := fx.NewMsg("Reply")
+			if tc.wantCT == "application/x-verif" {
+				ok = verifCodec{}.Unmarshal(rec.Body.Bytes(), out) == nil
+			} else {
+				ok = protojson.Unmarshal(rec.Body.Bytes(), out) == nil
+			}
+			ok = ok && out.Get(out.Descriptor().Fields().ByName("text")).String() == "custom-reply"
+		}
+		if !ok {
+			c.SpecFail("api-custom-codec", in, fmt.Sprintf("%d ct=%q body=%q panic=%v", rec.Code, gotCT, truncS(rec.Body.String(), 80), pn), "200 ct="+tc.wantCT+" decodable with that codec", "C04/api/registered-codec-not-negotiated", "a codec registered with CodecOption is not offered / not used as the negotiation admits")
+		}
+	}
+}
+
 func c04API(c *Ctx) {
+	c04Custom(c)
 	var reply proto.Message
 	var sendHeaderFirst bool
 	var fail error
@@ -506,7 +578,7 @@ func c04API(c *Ctx) {
 					raw, _ = gunzip(raw)
 				}
 				gotCT := rec.Header().Get("Content-Type")
-				if rec.Code != 200 || !bytes.Equal(raw, data) || (bct != "" && gotCT != bct) {
+				if rec.Code != 200 || !bytes.Equal(raw, data) || gotCT != bct {
 					c.SpecFail("api-httpbody", via+" "+in, fmt.Sprintf("%d ct=%q %d bytes", rec.Code, gotCT, len(raw)), fmt.Sprintf("ct=%q %d bytes", bct, len(data)), "C04/api/httpbody-passthrough", "HttpBody reply is not delivered as its raw bytes under its own content type")
 				}
 			}
